@@ -52,7 +52,8 @@ pair_def!(c13_pair_def_inset, |all, limit| TextSelectionOperator::InSet { all, n
 // that records the gap it was asked for and answers " " or "x" according to a per-harness symbolic flag.
 // What is decided: the arithmetic around the lookup (no underflow), that the lookup is made for exactly
 // the gap between the two selections, and that the result is "adjacent, or separated by whitespace only".
-fn d_precedes_ws(a_end: usize, b_begin: usize, ws: bool) -> bool { a_end <= b_begin && (a_end == b_begin || ws) }
+/// adjacent, or separated by at most WHITESPACE_LIMIT code points that are all whitespace
+fn d_precedes_ws(a_end: usize, b_begin: usize, ws: bool) -> bool { a_end <= b_begin && (a_end == b_begin || (ws && b_begin - a_end <= WHITESPACE_LIMIT)) }
 
 macro_rules! pair_ws {
     ($name:ident, |$all:ident| $op:expr, |$a:ident, $b:ident, $ws:ident| $def:expr, |$ga:ident, $gb:ident| $gap:expr) => {
